@@ -132,6 +132,22 @@ fn variants(rng: &mut Rng, p: &Prob) -> Vec<Variant> {
     let mut k = Knobs::default(); k.method = "faer"; out.push(identity_variant("faer backend", p, k));
     let mut k = Knobs::default(); k.method = "faer"; k.threads = 4; out.push(identity_variant("faer backend, 4 threads", p, k));
     let mut k = Knobs::default(); k.method = "auto"; k.threads = 1; out.push(identity_variant("auto backend, 1 thread", p, k));
+    // --- an unbounded constraint written in different ways: extra nonnegative rows whose bound is
+    // the infinity constant itself, or far beyond it (presolve removes them; the verdict and the
+    // base rows' solution must not depend on how 'no bound' was spelt)
+    for (nm, bound) in [("vacuous rows bounded by get_infinity()", clarabel::get_infinity()), ("vacuous rows bounded by 1e30", 1e30)] {
+        let extra = 1 + rng.below(2);
+        let mut A2 = A.clone();
+        let mut b2 = p.b.clone();
+        for _ in 0..extra {
+            A2.push((0..n).map(|_| rng.range(-2, 2) as f64).collect());
+            b2.push(bound);
+        }
+        let mut cones2 = p.cones.clone();
+        cones2.push(NonnegativeConeT(extra));
+        let prob = Prob { P: p.P.clone(), q: p.q.clone(), A: csc(&A2, m + extra, n), b: b2, cones: cones2, label: p.label.clone(), intent: p.intent };
+        out.push(Variant { name: nm.into(), prob, knobs: Knobs::default(), col_map: (0..n).collect(), row_map: (0..m).collect(), lambda: 1.0 });
+    }
     // --- P given as full symmetric matrix
     {
         let mut q2 = p.clone();
